@@ -12,7 +12,8 @@ func main() {
 	r.Rule("RC4: every key length 1..256 x boundary data lengths x {whole, byte-at-a-time, fixed and seeded chunkings, empty chunks} x {in place, separate, longer dst, adjacent halves of one array}, 1 MiB streams; non-trivial = >=2 chunks or >256 bytes (index wrap). " +
 		"CMAC: AES-128/192/256, DES, 3DES; every length 0..N with every 2-way split, a Sum after every byte, six Reset scenarios, seeded Write/Sum/Reset operation strings, long messages; non-trivial = a split strictly inside the message, a prefix-Sum run over >=2 bytes, a Reset scenario, an operation string, a sub-key branch class. " +
 		"PKCS#7: the whole grid b=1..255 x len 0..2b+1 (exhaustive), all buffers of length 1..6 over {00,01,02,03,FF} (exhaustive), per-pad-length near-misses, seeded buffers; non-trivial = each grid cell, each enumerated buffer that is invalid or longer than one byte, each near-miss family. " +
-		"GPP: UTF-16 lengths 0..40 in four scripts, special code points, seeded Unicode passwords; each judged on Encrypt value, Decrypt(Encrypt), and the standard ciphertext as padded base64, unpadded base64 and raw bytes; non-trivial = distinct (class, length) tuple.")
+		"GPP: UTF-16 lengths 0..40 in four scripts, special code points, seeded Unicode passwords; each judged on Encrypt value, Decrypt(Encrypt), and the standard ciphertext as padded base64, unpadded base64 and raw bytes; non-trivial = distinct (class, length) tuple. " +
+		"State monitors (state.go): RC4 objects with unrelated keys driven in turn and from 8 goroutines, Reset histories; CMAC Reset chains over every residue class on one object, three objects written byte by byte in turn, 8 goroutines; PKCS#7 and GPP call sequences and 8 concurrent callers; every returned tag/padded buffer held in a ring of 64 and compared again later; non-trivial = each group/chain/phase.")
 	r.Assume(
 		"crypto/aes and crypto/des block primitives of the Go standard library are correct",
 		"crypto/rc4 of the standard library and the harness's textbook RC4 must agree on every case (else inconclusive); RFC 6229 anchors them",
@@ -28,5 +29,6 @@ func main() {
 	cmacWorkload()
 	pkcs7Workload()
 	gppWorkload()
+	stateWorkload() // state.go: interleaved/concurrent objects, Reset histories, held outputs, input scribble
 	r.Finish()
 }
